@@ -251,6 +251,25 @@ def check_prepare(P, R):
     R.check(ok_len, "IDX.route-partitions", key, f"zip({', '.join(src(a) for a in za)})", "partition lengths paired with the partitions", "partition lengths and partitions are not both derived from the same bag")
 
 
+def check_reduce_iadd(P, R):
+    """reduce_iadd(*lists) folds every element of each list (functools.reduce, sum, a loop, or a helper that does)."""
+    f = P.func("factor_analysis:reduce_iadd")
+    R.analysed(f)
+    loopvars = [n.target.id for n in walk_no_nested(f.node) if isinstance(n, ast.For) and isinstance(n.target, ast.Name) and isinstance(n.iter, ast.Name) and n.iter.id == (f.vararg or "")]
+    if not loopvars:
+        R.undecided("COVER.reduce_iadd", f.key, "each list of *args is folded", "no loop over the argument lists found")
+        return
+    for lv in loopvars:
+        v = proto.fold_whole(P, f, lv)
+        what = f"each list `{lv}` is folded whole"
+        if v == "whole":
+            R.ok("COVER.reduce_iadd", f.key, what, "recognised whole-list fold")
+        elif v == "partial":
+            R.violation("COVER.reduce_iadd", f.key, what, "reduce_iadd folds a slice / a single element of each list: some per-class accumulators never reach the M-step")
+        else:
+            R.undecided("COVER.reduce_iadd", f.key, what, "the list is consumed in a way the rule does not recognise")
+
+
 def run(P, R, tier):
     own = owneng.Own(P)
     sites = {
@@ -271,12 +290,7 @@ def run(P, R, tier):
     R.floor("COPYBACK sinks", ncb, 5)
     R.floor("PURE tasks", npure, 9)
     # reduce_iadd folds each list whole
-    f = P.func("factor_analysis:reduce_iadd")
-    ok = False
-    for c in walk_no_nested(f.node):
-        if isinstance(c, ast.Call) and src(c.func).endswith("reduce") and len(c.args) == 2 and src(c.args[0]) == "operator.iadd" and isinstance(c.args[1], ast.Name):
-            ok = True
-    R.check(ok, "COVER.reduce_iadd", f.key, "functools.reduce(operator.iadd, a) over each whole list", "", "reduce_iadd does not fold each list whole")
+    check_reduce_iadd(P, R)
     for key, ms in (("factor_analysis:ISVMachine.m_step", 1), ("factor_analysis:JFAMachine.m_step_v", 1), ("factor_analysis:JFAMachine.m_step_u", 1), ("factor_analysis:JFAMachine.m_step_d", 1)):
         g = P.func(key)
         prm = g.value_params[0]
@@ -294,3 +308,5 @@ def run(P, R, tier):
     check_prepare(P, R)
     from ..engines import idx as _idx
     _idx.check_class_select(P, R, "factor_analysis:FactorAnalysisBase._get_statistics_by_class_id")
+    from ..engines import proto as _pp
+    _pp.check_pairwise_folds(P, R, ['factor_analysis', 'ivector', 'utils'])
